@@ -232,6 +232,22 @@ func (ev *evaluator) ident(name string) Val {
 		}
 	}
 	_ = c
+	// a renamed parameter: resolve through its positional anchor
+	if ev.x.fc != nil && ev.x.fn != nil && ev.x.fc.localAnchors != nil {
+		if an, ok := ev.x.fc.localAnchors[name]; ok {
+			k := 0
+			for _, a := range namedLocals(ev.x.fn) {
+				if localTypeString(a) == an.typ {
+					k++
+					if k == an.ord {
+						if v, ok := ev.vars[a.Comment]; ok {
+							return v
+						}
+					}
+				}
+			}
+		}
+	}
 	ev.fail("unknown identifier %q", name)
 	return Val{}
 }
